@@ -177,10 +177,17 @@ def worker_main(argv):
     mod.setup(ctx)
     soft = getattr(mod, 'CASE_DEADLINE', 20)
     budget = float(os.environ.get('VERIF_WORKER_BUDGET', '0')) or None
+    start_idx = int(os.environ.get('VERIF_START_IDX', '0'))
     for idx, case in enumerate(mod.cases(ctx)):
+        if idx < start_idx:
+            continue
         if getattr(mod, 'JOURNAL', False):
             journal.seek(0)
-            journal.write(json.dumps({'idx': idx, 'case': jsonable(case)}) + '\n')
+            try:
+                blob = base64.b64encode(pickle.dumps(case)).decode() if getattr(mod, 'JOURNAL_PICKLE', False) else None
+            except Exception:
+                blob = None
+            journal.write(json.dumps({'idx': idx, 'case': jsonable(case), 'pickle': blob}) + '\n')
             journal.truncate()
             journal.flush()
         ctx.evaluations += 1
@@ -231,7 +238,11 @@ def merge(results):
         m['evaluations'] += r['evaluations']
         m['nontrivial'].update(r['nontrivial'])
         m['nontrivial_enum'] += r['nontrivial_enum']
-        m['counters'].update(r['counters'])
+        for k, v in r['counters'].items():
+            if k.startswith('max_'):
+                m['counters'][k] = max(m['counters'][k], v)
+            else:
+                m['counters'][k] += v
         for k, v in r['cover'].items():
             m['cover'][k].update(tuple(x) if isinstance(x, list) else x for x in v)
         m['samples'] += r['samples'][:2]
@@ -280,35 +291,83 @@ def parent_main(cid, tier, seed, nworkers, replay=None):
         nworkers = min(nworkers, getattr(mod, 'MAX_WORKERS', nworkers))
         env = dict(os.environ, PYTHONHASHSEED='0', PYTHONPATH=VERIF, PYTHONDONTWRITEBYTECODE='1')
         env[GUARD] = '1'
-        procs = []
-        for i in range(nworkers):
-            out = os.path.join(base, 'out-%d.json' % i)
-            err = open(os.path.join(base, 'err-%d.txt' % i), 'w')
+        def spawn(i, start=0):
+            out = os.path.join(base, 'out-%d-%d.json' % (i, start))
+            err = open(os.path.join(base, 'err-%d.txt' % i), 'a')
+            e2 = dict(env, VERIF_START_IDX=str(start))
             p = subprocess.Popen([PY, '-c', 'import sys; from lib.core import worker_main; sys.exit(worker_main(sys.argv[1:]))',
                                   cid, str(i), str(nworkers), tier, str(seed), base, out],
-                                 cwd=VERIF, env=env, stdout=err, stderr=subprocess.STDOUT)
-            procs.append((p, out, err))
-        hard = getattr(mod, 'HARD_TIMEOUT', {'quick': 900, 'thorough': 6 * 3600})[tier]
-        results, dead = [], []
-        for i, (p, out, err) in enumerate(procs):
-            left = max(1, hard - (time.time() - t0))
+                                 cwd=VERIF, env=e2, stdout=err, stderr=subprocess.STDOUT)
+            return {'p': p, 'out': out, 'err': err, 'shard': i, 'last': None, 'since': time.time(), 'restarts': 0}
+
+        def journal_of(w):
             try:
-                rc = p.wait(timeout=left)
-            except subprocess.TimeoutExpired:
-                p.kill()
-                p.wait()
-                rc = 'watchdog'
-            err.close()
-            if rc == 0 and os.path.exists(out):
-                results.append(json.load(open(out)))
-            else:
-                j = None
-                try:
-                    j = json.loads(open(out + '.journal').read() or 'null')
-                except Exception:
-                    pass
-                tail = open(err.name, errors='replace').read()[-3000:]
-                dead.append({'shard': i, 'rc': rc, 'journal': j, 'stderr_tail': tail})
+                return json.loads(open(w['out'] + '.journal').read() or 'null')
+            except Exception:
+                return None
+
+        def cpu_of(pid):
+            try:
+                f = open('/proc/%d/stat' % pid).read().rsplit(')', 1)[1].split()
+                return (int(f[11]) + int(f[12])) / os.sysconf('SC_CLK_TCK')
+            except Exception:
+                return None
+
+        workers = [spawn(i) for i in range(nworkers)]
+        hard = getattr(mod, 'HARD_TIMEOUT', {'quick': 900, 'thorough': 6 * 3600})[tier]
+        hang_limit = getattr(mod, 'CASE_HARD_TIMEOUT', None)
+        results, dead, hangs = [], [], []
+        live = list(workers)
+        while live:
+            for w in list(live):
+                rc = w['p'].poll()
+                now = time.time()
+                if rc is None and now - t0 > hard:
+                    w['p'].kill()
+                    w['p'].wait()
+                    rc = 'watchdog'
+                if rc is None and hang_limit:
+                    j = journal_of(w)
+                    key = j and j.get('idx')
+                    if key != w['last']:
+                        w['last'], w['since'] = key, now
+                    elif j is not None and now - w['since'] > hang_limit:
+                        cpu = cpu_of(w['p'].pid)
+                        w['p'].kill()
+                        w['p'].wait()
+                        hangs.append({'shard': w['shard'], 'journal': j, 'cpu_s': cpu, 'wall_s': round(now - w['since'], 1)})
+                        live.remove(w)
+                        w['err'].close()
+                        if w['restarts'] < 6:
+                            nw = spawn(w['shard'], j['idx'] + 1)
+                            nw['restarts'] = w['restarts'] + 1
+                            live.append(nw)
+                        continue
+                if rc is None:
+                    continue
+                live.remove(w)
+                w['err'].close()
+                if rc == 0 and os.path.exists(w['out']):
+                    results.append(json.load(open(w['out'])))
+                else:
+                    tail = open(w['err'].name, errors='replace').read()[-3000:]
+                    dead.append({'shard': w['shard'], 'rc': rc, 'journal': journal_of(w), 'stderr_tail': tail})
+            if live:
+                time.sleep(0.1 if hang_limit else 0.05)
+        if hangs and hasattr(mod, 'judge_hang'):
+            extra = {'evaluations': 0, 'nontrivial': [], 'nontrivial_enum': 0, 'counters': {'cases_killed_by_hard_watchdog': len(hangs)}, 'cover': {},
+                     'samples': [], 'violations': [], 'viol_counts': {}, 'timeouts': [], 'n_timeouts': 0, 'notes': [], 'wall': 0}
+            for h in hangs:
+                v = mod.judge_hang(h)
+                if v is None:
+                    dead.append({'shard': h['shard'], 'rc': 'hard-watchdog (inconclusive: starved)', 'journal': h['journal'], 'stderr_tail': ''})
+                else:
+                    extra['violations'].append(v)
+                    extra['viol_counts']['%s|%s' % (v.get('finding') or '', v['what'])] = extra['viol_counts'].get('%s|%s' % (v.get('finding') or '', v['what']), 0) + 1
+            results.append(extra)
+        elif hangs:
+            for h in hangs:
+                dead.append({'shard': h['shard'], 'rc': 'hard-watchdog', 'journal': h['journal'], 'stderr_tail': ''})
         m = merge(results)
         wall = time.time() - t0
         return verdict(mod, cid, tier, seed, m, dead, wall)
